@@ -411,6 +411,48 @@ theorem flatten_grid (w : Nat) (g : Nat → Nat → Int) (h : Nat) :
       rw [show y * w + x - y * w = x by omega, List.getElem?_map, List.getElem?_range hx]
       rfl
 
+/-! ### writes through a view of arbitrary geometry -/
+
+theorem mem_gridPts (w h : Nat) (p : Nat × Nat) : p ∈ gridPts w h ↔ p.1 < w ∧ p.2 < h := by
+  unfold gridPts
+  simp only [List.mem_flatMap, List.mem_map, List.mem_range]
+  constructor
+  · rintro ⟨y, hy, x, hx, rfl⟩; exact ⟨hx, hy⟩
+  · rintro ⟨h1, h2⟩; exact ⟨p.2, h2, p.1, h1, rfl⟩
+
+theorem writeCells_frame (addr : Nat × Nat → Nat) (vals : Nat × Nat → Int) (pts : List (Nat × Nat)) (mem : Nat → Int) (a : Nat)
+    (h : ∀ p ∈ pts, addr p ≠ a) : writeCells addr vals pts mem a = mem a := by
+  unfold writeCells
+  induction pts generalizing mem with
+  | nil => rfl
+  | cons q l ih =>
+    rw [List.foldl_cons, ih _ (fun p hp => h p (List.mem_cons_of_mem _ hp))]
+    have := h q List.mem_cons_self
+    show (if a = addr q then vals q else mem a) = mem a
+    rw [if_neg (fun e => this e.symm)]
+
+theorem writeCells_value (addr : Nat × Nat → Nat) (vals : Nat × Nat → Int) (pts : List (Nat × Nat)) (mem : Nat → Int)
+    (inj : ∀ p q, p ∈ pts → q ∈ pts → addr p = addr q → p = q) (p : Nat × Nat) (hp : p ∈ pts) :
+    writeCells addr vals pts mem (addr p) = vals p := by
+  induction pts generalizing mem with
+  | nil => cases hp
+  | cons q l ih =>
+    have inj' : ∀ p q, p ∈ l → q ∈ l → addr p = addr q → p = q :=
+      fun a b ha hb => inj a b (List.mem_cons_of_mem _ ha) (List.mem_cons_of_mem _ hb)
+    have unfold1 : writeCells addr vals (q :: l) mem = writeCells addr vals l (fun a => if a = addr q then vals q else mem a) := rfl
+    rw [unfold1]
+    by_cases hin : p ∈ l
+    · exact ih _ inj' hin
+    · have hpq : p = q := by
+        rcases List.mem_cons.mp hp with e | e
+        · exact e
+        · exact absurd e hin
+      subst hpq
+      rw [writeCells_frame addr vals l _ (addr p) (fun r hr e => hin (by
+        have := inj r p (List.mem_cons_of_mem _ hr) List.mem_cons_self e
+        rw [← this]; exact hr))]
+      simp
+
 /-! ### duality of erosion and dilation under negation (complement) -/
 
 theorem maxOver_compl (K init : Int) (l : List Int) : maxOver (K - init) (l.map (fun v => K - v)) = K - minOver init l := by
